@@ -85,17 +85,15 @@ func (this *CosmosHandler) MakeDepositProposal(service *native.NativeService) (*
 	if err != nil {
 		return nil, fmt.Errorf("Cosmos MakeDepositProposal, unmarshal proof err: %v", err)
 	}
+	// A deposit must be proven to exist. An empty key path used to select VerifyAbsence with the value as the key
+	// path, after which the value (proven absent) was still accepted as the cross-chain message.
+	if len(proofValue.Kp) == 0 {
+		return nil, fmt.Errorf("Cosmos MakeDepositProposal, Kp is nil")
+	}
 	prt := ProofRuntime()
-	if len(proofValue.Kp) != 0 {
-		err = prt.VerifyValue(&proof, myHeader.Header.AppHash, proofValue.Kp, proofValue.Value)
-		if err != nil {
-			return nil, fmt.Errorf("Cosmos MakeDepositProposal, proof error: %s", err)
-		}
-	} else {
-		err = prt.VerifyAbsence(&proof, myHeader.Header.AppHash, string(proofValue.Value))
-		if err != nil {
-			return nil, fmt.Errorf("Cosmos MakeDepositProposal, proof error: %s", err)
-		}
+	err = prt.VerifyValue(&proof, myHeader.Header.AppHash, proofValue.Kp, proofValue.Value)
+	if err != nil {
+		return nil, fmt.Errorf("Cosmos MakeDepositProposal, proof error: %s", err)
 	}
 	data := common.NewZeroCopySource(proofValue.Value)
 	txParam := new(scom.MakeTxParam)
